@@ -1,4 +1,4 @@
-//go:build !internaltie
+//go:build !verif
 
 package main
 
